@@ -67,6 +67,12 @@ class Src:
         self.class_by_name = {}  # name -> [ClassInfo]
         self.funcs = {}     # (rel, qual) -> FuncInfo
         self.imports = {}   # rel -> {local name: (module rel or dotted, attr or None)}
+        self.alpha_renamed = []   # functions whose locals were renamed back to the reference names (pure local renamings undone)
+        try:
+            from . import alpha
+            self._alpha_db = alpha.load_db()
+        except Exception:
+            self._alpha_db = {}
         self._load()
 
     # ------------------------------------------------------------------ loading
@@ -88,6 +94,9 @@ class Src:
                         mod = ast.parse(txt, filename=p)
                 except (SyntaxError, UnicodeDecodeError) as e:
                     raise AnalysisError(f"cannot parse {rel}: {e}")
+                if self._alpha_db:
+                    from . import alpha
+                    alpha.normalise_module(rel, mod, self._alpha_db, self.alpha_renamed)
                 self.modules[rel] = mod
                 self.text[rel] = txt
                 self._index(rel, mod)
@@ -309,3 +318,49 @@ def kwarg(call, name, pos=None):
     if pos is not None and len(call.args) > pos and not any(isinstance(a, ast.Starred) for a in call.args[:pos + 1]):
         return call.args[pos]
     return None
+
+
+# ---------------------------------------------------------------------------------------------- helpers that make rules independent of local variable names
+def local_names(fn):
+    """names assigned in fn (not in nested functions) that are neither parameters nor declared global/nonlocal"""
+    a = fn.args
+    params = {x.arg for x in a.posonlyargs + a.args + a.kwonlyargs} | ({a.vararg.arg} if a.vararg else set()) | ({a.kwarg.arg} if a.kwarg else set())
+    out, banned = set(), set(params)
+    for n in walk_no_nested(fn):
+        if isinstance(n, ast.Name) and isinstance(n.ctx, (ast.Store, ast.Del)):
+            out.add(n.id)
+        elif isinstance(n, (ast.Global, ast.Nonlocal)):
+            banned.update(n.names)
+    return out - banned
+
+
+def alpha_text(fn, node, maxlen=None):
+    """source text of node with the local variables of fn replaced by _1, _2, ... in order of first occurrence: a finding key that survives renaming of locals"""
+    loc = local_names(fn)
+    order = {}
+
+    class R(ast.NodeTransformer):
+        def visit_Name(self, n):
+            if n.id in loc:
+                order.setdefault(n.id, f"_{len(order) + 1}")
+                return ast.copy_location(ast.Name(id=order[n.id], ctx=n.ctx), n)
+            return n
+    import copy
+    t = unparse(R().visit(copy.deepcopy(node)))
+    t = " ".join(t.split())
+    return t if maxlen is None or len(t) <= maxlen else t[:maxlen - 3] + "..."
+
+
+def returned_names(fn):
+    """local names that fn returns (`return x`, `return x, y`)"""
+    out = set()
+    for n in walk_no_nested(fn):
+        if isinstance(n, ast.Return) and n.value is not None:
+            vals = n.value.elts if isinstance(n.value, ast.Tuple) else [n.value]
+            out.update(v.id for v in vals if isinstance(v, ast.Name))
+    return out
+
+
+def defs_of(fn, name):
+    """values assigned to the plain local `name` in fn"""
+    return [n.value for n in walk_no_nested(fn) if isinstance(n, ast.Assign) and any(isinstance(t, ast.Name) and t.id == name for t in n.targets)]
